@@ -32,9 +32,9 @@ ASSUMPTIONS = ["message identity = header.msg_count (unique per run), which ever
                "injected delays only at Event operations (and, thorough, at line boundaries of data_collection.py/data_set.py): places "
                "where the real threads can be pre-empted anyway",
                "a wall-clock watchdog (case timeout) firing is inconclusive, not a violation"]
-REQUIRE = {"runs": 100, "messages_expected": 3000, "background_writes": 100, "distinct_event_traces": 30, "files_decoded": 300}
+REQUIRE = {"messages_with_edge_ids": 200, "runs": 100, "messages_expected": 3000, "background_writes": 100, "distinct_event_traces": 30, "files_decoded": 300}
 CASE_TIMEOUT = 120
-TYPES = [62, 26, 63, 15, 32]
+TYPES = [62, 26, 63, 15, 32, 9999, 10000, 10000]
 
 
 class VClock:
@@ -112,7 +112,7 @@ def gen_script(rng, tier):
     nds = rng.randint(1, 6)
     dss = []
     for i in range(nds):
-        sel = rng.choice([[0x7FFFFFFF], [62], [26, 63], [62, 26], [-5, 0, 62], [15], [32, 62, 63], [63], [0x7FFFFFFF, 62]])
+        sel = rng.choice([[0x7FFFFFFF], [62], [26, 63], [62, 26], [-5, 0, 62], [15], [32, 62, 63], [63], [0x7FFFFFFF, 62], [10000], [9999, 10000], [10000, 62]])
         dss.append({"name": f"ds{i}", "fmt": rng.choice(["raw", "json", "quicklogger", "msg_header"]), "types": sel,
                     "subdiv": rng.choice([0, 0, 30, 30, 45, 10])})
     cycles = []
@@ -203,8 +203,49 @@ def line_injection(enable, seed=0):
     return True
 
 
+EDGE_YAML = """message_defs:
+  VF_EDGE_LOW:
+    id: 9999
+    fields:
+      n: int32
+  VF_EDGE_TOP:
+    id: 10000
+    fields:
+      n: int32
+"""
+
+
+def prepare(tier, seed, scratch):
+    # two message definitions at the upper edge of the id range (10000 is the largest id a definition may have)
+    from pathlib import Path
+    from vf.loaders import langs as L
+    d = Path(scratch) / "c17edge"
+    (d / "out").mkdir(parents=True, exist_ok=True)
+    (d / "edge.yaml").write_text(EDGE_YAML)
+    rc, text = L.compile_closure(d / "edge.yaml", d / "out", name="vf_c17_edge", langs=("py",))
+    if rc != 0:
+        raise RuntimeError("edge definitions did not compile: " + text[-300:])
+
+
+_EDGE = []
+
+
+def load_edge():
+    if not _EDGE:
+        import importlib.util
+        import sys
+        p = os.path.join(os.environ["VF_SCRATCH"], "c17edge", "out", "vf_c17_edge.py")
+        spec = importlib.util.spec_from_file_location("vf_c17_edge", p)
+        mod = importlib.util.module_from_spec(spec)
+        sys.modules["vf_c17_edge"] = mod
+        spec.loader.exec_module(mod)
+        _EDGE.append(mod)
+    return _EDGE[0]
+
+
 def run_case(case, tier):
     import pyrtma
+    load_edge()
     import pyrtma.core_defs as cd
     from pyrtma.message import Message, get_header_cls, get_msg_cls
     import pyrtma.data_logger.data_collection as dcm
@@ -303,6 +344,9 @@ def run_case(case, tier):
                     elif t == 32:
                         data.name = f"n{uid[0]}"
                         data.uid = uid[0]
+                    elif t >= 9999:
+                        data.n = uid[0]
+                        C["messages_with_edge_ids"] = C.get("messages_with_edge_ids", 0) + 1
                     h = H()
                     h.msg_type = t
                     h.msg_count = uid[0]
